@@ -1,4 +1,5 @@
 import ScrutModel.Lemmas.ShellState
+import ScrutModel.Lemmas.StateFile
 /-!
 # C12 — Shell state carries from one test case to the next as if run in one shell (PARTIAL)
 
@@ -16,6 +17,13 @@ Two layers.
    `C12_vars_carried_partial` proves the refinement for histories that neither unset an inherited
    variable nor create read-only variables; the two excluded classes are genuine deviations of the
    code from the property, with witnesses below (known findings).
+3. The ORDER of the state file (`Model/StateFile.lean`): bash parses a sourced file command by
+   command under the options in force at that moment and stops at a syntax error. With the order
+   written since fix e15e02e (recorded options, `shopt -s extglob`, functions, recorded `extglob`
+   again, everything else) every state is restored, whatever `extglob` is when it is written
+   (`C12_state_file_order`); with the former order a function that needs `extglob` followed by
+   `shopt -u extglob` lost that function and everything behind it (`C12_old_order_fails_on_witness`,
+   the defect found when seeded change C12-options-restored-after-functions was missed).
 -/
 namespace Scrut.Props.C12
 open Scrut.Shell
@@ -61,6 +69,25 @@ test case. -/
 theorem C12_readonly_fails_on_witness :
     runPerProcess (fun _ => false) [] [5] [(.readonly 5 [7], false), (.other, false)] none
       ≠ runSession [5] [(.readonly 5 [7], false), (.other, false)] [] := by
+  decide
+
+/-- **C12** (order of the state file): a new process that sources what was persisted holds the
+option, all functions and everything written behind them -- also functions whose bodies can only
+be parsed while `extglob` is set, and also when `extglob` is off at the time the state is written. -/
+theorem C12_state_file_order (s : Scrut.StateFile.St) :
+    Scrut.StateFile.source Scrut.StateFile.fresh (Scrut.StateFile.persist s) = s :=
+  Scrut.StateFile.source_persist s
+
+/-- the order before fix e15e02e (options, then functions): `g` needs `extglob`, `extglob` is off
+again when the state is written, a variable stands for the rest of the state -- the next process
+has neither `g` nor the variable -/
+theorem C12_old_order_fails_on_witness :
+    Scrut.StateFile.source Scrut.StateFile.fresh
+        (Scrut.StateFile.persistOld ⟨false, [⟨7, true⟩], [(1, 2)]⟩)
+      = ⟨false, [], []⟩ ∧
+    Scrut.StateFile.source Scrut.StateFile.fresh
+        (Scrut.StateFile.persist ⟨false, [⟨7, true⟩], [(1, 2)]⟩)
+      = ⟨false, [⟨7, true⟩], [(1, 2)]⟩ := by
   decide
 
 /-! Non-vacuity of `Benign`: assign, export, modify, unset an own variable. -/
